@@ -725,6 +725,127 @@ def execute_pixels(desc, ctx):
         ctx.check(raw2 == raw, 'idempotent_bytes', f'saving the read-back VTF gives different bytes '
                   f'(len {len(raw)} -> {len(raw2)}, first difference at offset '
                   f'{next((i for i in range(min(len(raw), len(raw2))) if raw[i] != raw2[i]), min(len(raw), len(raw2)))})')
+    if desc.get('decode') is not None:
+        check_decode_used(desc['decode'], ctx)
+
+
+# -------- decoding into a frame that is already in use (part of the pixels sub-check)
+
+DXT_BLOCK = {'DXT1': 8, 'DXT1_ONEBITALPHA': 8, 'DXT3': 16, 'DXT5': 16, 'ATI2N': 16}
+LOADER_FORMATS = SAVE_FORMATS + list(DXT_BLOCK)     # every format with a pure-Python loader
+
+
+def block_size(fmt: str, w: int, h: int) -> int:
+    if fmt in DXT_BLOCK:
+        return DXT_BLOCK[fmt] * ((w + 3) // 4) * ((h + 3) // 4)
+    return BPP[fmt] * w * h
+
+
+def ref_decode(fmt: str, block: bytes, n: int):
+    """Independent decoder for the formats whose byte layout is plain from name and docstring; None for the others."""
+    out = bytearray(b'\0\0\0\xff' * n)
+    order = {'RGBA8888': 'rgba', 'UVWQ8888': 'rgba', 'UVLX8888': 'rgba', 'BGRA8888': 'bgra', 'ABGR8888': 'abgr',
+             'RGB888': 'rgb', 'BGR888': 'bgr', 'BGRX8888': 'bgrx', 'RGB888_BLUESCREEN': 'rgb', 'BGR888_BLUESCREEN': 'bgr',
+             'UV88': 'rg', 'IA88': 'ia', 'I8': 'i', 'A8': 'a'}.get(fmt)
+    if order is None:
+        return None
+    step = len(order)
+    for pos, ch in enumerate(order):
+        plane = block[pos::step]
+        if ch == 'i':
+            out[0::4] = out[1::4] = out[2::4] = plane
+        elif ch == 'a' and fmt == 'A8':
+            out[0::4] = out[1::4] = out[2::4] = bytes(n)
+            out[3::4] = plane
+        elif ch in 'rgba':
+            out['rgba'.index(ch)::4] = plane
+    if fmt.endswith('BLUESCREEN'):
+        for o in range(0, 4 * n, 4):
+            if out[o] == 0 and out[o + 1] == 0 and out[o + 2] == 255:
+                out[o:o + 4] = b'\0\0\0\0'
+    return bytes(out)
+
+
+def decode_strategy():
+    fmt = st.sampled_from(LOADER_FORMATS)
+    return st.fixed_dictionaries({
+        'size': st.tuples(st.sampled_from([1, 2, 4, 8]), st.sampled_from([1, 2, 4, 8])).map(list),
+        'fmt': fmt,
+        'block': pix_strategy(),
+        'prefill': st.one_of(
+            st.fixed_dictionaries({'kind': st.just('rgba'), 'pix': pix_strategy()}),
+            st.fixed_dictionaries({'kind': st.just('fill'), 'rgba': st.lists(st.integers(0, 255), min_size=4, max_size=4)}),
+            st.fixed_dictionaries({'kind': st.just('decode'), 'fmt': fmt, 'pix': pix_strategy()}),
+        ),
+        'save_first': st.sampled_from(SAVE_FORMATS),
+    })
+
+
+def check_decode_used(d, ctx):
+    """copy_from(block, fmt) into a frame that already holds other pixels == the same decode into a fresh frame."""
+    from srctools.vtf import VTF, ImageFormats
+    w, h = d['size']
+    fmt = d['fmt']
+    n = w * h
+    enum = ImageFormats[fmt]
+    size = block_size(fmt, w, h)
+    if size != enum.frame_size(w, h):
+        ctx.fail('frame_size', f'{fmt}.frame_size({w}, {h}) = {enum.frame_size(w, h)}, format definition gives {size}')
+    block = make_pixels(d['block'], 'blk', (size + 3) // 4)[:size]
+
+    def new_frame():
+        return VTF(w, h, thumb_fmt=ImageFormats.NONE).get()
+    fresh = new_frame()
+    fresh.copy_from(block, enum)
+    want = frame_bytes(fresh)
+    used = new_frame()
+    pre = d['prefill']
+    if pre['kind'] == 'rgba':
+        used.copy_from(make_pixels(pre['pix'], 'pre', n))
+    elif pre['kind'] == 'fill':
+        used.fill(*pre['rgba'])
+    else:
+        f2 = pre['fmt']
+        s2 = block_size(f2, w, h)
+        used.copy_from(make_pixels(pre['pix'], 'pre', (s2 + 3) // 4)[:s2], ImageFormats[f2])
+    stale = frame_bytes(used)
+    used.copy_from(block, enum)
+    got = frame_bytes(used)
+    ctx.label('decode:into_used_frame', 'decode:' + fmt, 'prefill:' + pre['kind'])
+    if got != want:
+        i = next(i for i in range(0, len(got), 4) if got[i:i + 4] != want[i:i + 4]) // 4
+        ctx.fail('decode_into_used_frame',
+                 f'{fmt} {w}x{h} block {block[:16].hex()}: decoded into a frame prefilled by {pre["kind"]} gives pixel '
+                 f'(x={i % w}, y={i // w}) = {tuple(got[4 * i:4 * i + 4])} (it held {tuple(stale[4 * i:4 * i + 4])} before), '
+                 f'decoded into a fresh frame {tuple(want[4 * i:4 * i + 4])}', fmt=fmt, small=(w < 4 or h < 4))
+    ref = ref_decode(fmt, block, n)
+    if fmt in DXT_BLOCK and (w < 4 or h < 4):
+        ref = b'\0\0\0\xff' * n    # "DXT format must be 4x4 at minimum. So just write black."
+    if ref is not None and want != ref:
+        i = next(i for i in range(0, len(ref), 4) if ref[i:i + 4] != want[i:i + 4]) // 4
+        ctx.fail('decode_reference', f'{fmt} {w}x{h} block {block[:16].hex()}: fresh decode gives pixel (x={i % w}, y={i // w}) = '
+                 f'{tuple(want[4 * i:4 * i + 4])}, the format definition gives {tuple(ref[4 * i:4 * i + 4])}',
+                 fmt=fmt, small=(w < 4 or h < 4))
+    # savers keep no scratch state: saving as A and then as B == a fresh object saved as B
+    if fmt in SAVE_FORMATS:
+        rgba = make_pixels(d['block'], 'rgba', n)
+
+        def obj(f):
+            v = VTF(w, h, fmt=ImageFormats[f], thumb_fmt=ImageFormats.NONE)
+            v.get().copy_from(rgba)
+            return v
+        a = obj(d['save_first'])
+        a.save(io.BytesIO())
+        a.format = enum
+        b1, b2 = io.BytesIO(), io.BytesIO()
+        a.save(b1)
+        obj(fmt).save(b2)
+        ctx.check(b1.getvalue() == b2.getvalue(), 'saver_scratch_state',
+                  f'{w}x{h}: saving as {d["save_first"]} and then as {fmt} differs from saving a fresh object as {fmt}')
+
+
+def pixels_strategy(tier):
+    return st.fixed_dictionaries({'tex': tex_strategy(tier), 'decode': decode_strategy()})
 
 
 def pixels_fixed(tier):
@@ -1439,10 +1560,11 @@ SUBCHECKS = [
         must_hit=_SHAPES + _LAYOUTS + _VERS + ('origin:ctor', 'origin:file', 'version_override')),
     Sub('structure', execute_structure, strategy=tex_only_strategy, quick=3000, thorough=30000, floor=500,
         must_hit=_SHAPES + _LAYOUTS + _VERS + ('origin:ctor', 'origin:file')),
-    Sub('pixels', execute_pixels, strategy=tex_only_strategy, fixed=pixels_fixed, quick=4000, thorough=24000,
+    Sub('pixels', execute_pixels, strategy=pixels_strategy, fixed=pixels_fixed, quick=4000, thorough=24000,
         quick_shards=8, floor=800,
         must_hit=_SHAPES + _LAYOUTS + _VERS + tuple('fmt:' + f for f in SAVE_FORMATS)
-        + tuple('thumb:' + f for f in SAVE_FORMATS) + ('thumb_checked', 'thumb_regenerated', 'mips:supply', 'mips:compute', 'origin:file')),
+        + tuple('thumb:' + f for f in SAVE_FORMATS) + ('thumb_checked', 'thumb_regenerated', 'mips:supply', 'mips:compute', 'origin:file', 'decode:into_used_frame',
+           'prefill:rgba', 'prefill:fill', 'prefill:decode') + tuple('decode:' + f for f in LOADER_FORMATS)),
     Sub('resources', execute_resources, strategy=res_strategy, quick=3000, thorough=40000, floor=500,
         must_hit=('res_int', 'res_bytes', 'res_enum_key', 'res_raw_key', 'nres:3', 'ver:7.3', 'ver:7.4', 'ver:7.5')),
     Sub('sheet', execute_sheet, strategy=res_strategy, quick=3000, thorough=40000, floor=500,
